@@ -102,6 +102,7 @@ def build(mesh):
         g = mulgrid().rectangular(mesh['dx'], mesh['dy'], mesh['dz'], convention=mesh.get('convention', 0),
                                   atmos_type=mesh.get('atmos', 2), origin=mesh.get('origin', [0., 0., 0.]))
         if mesh.get('rotate'): g.rotate(mesh['rotate'])
+        if mesh.get('centres'): g = with_specified_centres(g, mesh['centres'])
         return g
     if k == 'file':
         g = mulgrid(os.path.join(repo_dir(), 'tests', 'mulgrid', mesh['name']))
@@ -118,6 +119,7 @@ def build(mesh):
             g.add_node(node(nm, np.array([float(x), float(y)])))
         for j, idx in enumerate(mesh['columns']):
             g.add_column(column(g.column_name_from_number(j + 1), [g.node[names[i]] for i in idx]))
+        if mesh.get('centres'): g = with_specified_centres(g, mesh['centres'], finish=False)
         for con in g.missing_connections: g.add_connection(con)
         g.add_layers(mesh['dz'], mesh.get('top', 0.0))
         g.set_default_surface()
@@ -125,6 +127,34 @@ def build(mesh):
         g.setup_block_name_index(); g.setup_block_connection_name_index()
         return g
     raise ValueError('unknown mesh kind %r' % k)
+
+
+def with_specified_centres(src, how, finish=True):
+    """the same geometry with every column built as column(name, nodes, centre=...), i.e.
+    centre_specified = 1 as for columns read from a file that lists column centres.
+    how = 'centroid': the centre given is the centroid;  'offset': a point between the centroid
+    and the first node (strictly inside a convex column, not the centroid)"""
+    from mulgrids import mulgrid, node, column, connection
+    g = mulgrid(type=src.type, convention=src.convention, atmos_type=src.atmosphere_type)
+    g.empty()
+    for n in src.nodelist: g.add_node(node(n.name, n.pos.copy()))
+    for c in src.columnlist:
+        nodes = [g.node[n.name] for n in c.node]
+        cen = np.array(c.centroid, dtype=float)
+        if how == 'offset': cen = 0.75 * cen + 0.25 * np.array(c.node[0].pos, dtype=float)
+        g.add_column(column(c.name, nodes, centre=cen, surface=c.surface))
+    if not finish: return g
+    for con in src.connectionlist: g.add_connection(connection([g.column[c.name] for c in con.column]))
+    lays = src.layerlist
+    g.add_layers([l.top - l.bottom for l in lays[1:]], lays[0].bottom)
+    g.set_default_surface()
+    for c in src.columnlist:
+        if c.surface is not None:
+            g.column[c.name].surface = c.surface
+            g.set_column_num_layers(g.column[c.name])
+    g.identify_neighbours()
+    g.setup_block_name_index(); g.setup_block_connection_name_index()
+    return g
 
 
 def set_surfaces(g, surfaces):
@@ -137,24 +167,31 @@ def set_surfaces(g, surfaces):
     g.setup_block_name_index(); g.setup_block_connection_name_index()
 
 
+def _sel(g, op, key='columns'):
+    """column names an op acts on: explicit names (resolved by the sequence runner) or indices into columnlist"""
+    cl = g.columnlist
+    if 'colnames' in op: return [n for n in op['colnames'] if n in g.column]
+    if op.get('wrap'): return [cl[i].name for i in sorted(set(j % len(cl) for j in op.get(key, [])))] if cl else []
+    return [cl[i].name for i in op.get(key, []) if i < len(cl)]
+
+
 def apply_op(g, op):
     """returns a short description of what the call did"""
     nm = op['name']
     cl = g.columnlist
     if nm == 'refine':
-        if op.get('wrap'): cols = [cl[i].name for i in sorted(set(j % len(cl) for j in op['columns']))]
-        else: cols = [cl[i].name for i in op['columns'] if i < len(cl)]
+        cols = _sel(g, op)
         edge = [cl[i].name for i in op.get('edge', []) if i < len(cl) and cl[i].name not in cols]
         if not cols: return 'empty-selection'
         with _quiet() as out:
             g.refine(cols, bisect=op.get('bisect', False), bisect_edge_columns=edge)
         return 'ok'
     if nm == 'decompose':
-        cols = [cl[i].name for i in op.get('columns', []) if i < len(cl)]
+        cols = _sel(g, op)
         with _quiet(): g.decompose_columns(cols)
         return 'ok'
     if nm == 'triangulate':
-        cols = [cl[i].name for i in op.get('columns', []) if i < len(cl)]
+        cols = _sel(g, op)
         with _quiet():
             for c in cols: g.triangulate_column(c)
             # triangulate_column() is the step decompose_columns() applies per column; the caller
@@ -163,7 +200,11 @@ def apply_op(g, op):
             g.setup_block_name_index(); g.setup_block_connection_name_index()
         return 'ok' if cols else 'empty-selection'
     if nm == 'split':
-        col = cl[op['column']]
+        if 'colnames' in op:
+            cand = [n for n in op['colnames'] if n in g.column]
+            if not cand: return 'empty-selection'
+            col = g.column[cand[op.get('pick', 0) % len(cand)]]
+        else: col = cl[op['column'] % len(cl)] if op.get('wrap') else cl[op['column']]
         nn = op['node']
         nodename = col.node[nn].name if 0 <= nn < col.num_nodes else '~~~'      # a node that is not in the column: returns False
         with _quiet(): r = g.split_column(col.name, nodename)
@@ -429,9 +470,107 @@ OPNAMES = {'refine': 'refine', 'decompose': 'decompose_columns', 'triangulate': 
            'refine_layers': 'refine_layers'}
 
 
+def op_targets(g, op):
+    """names of the columns an op is aimed at (before it is applied)"""
+    if op['name'] == 'refine_layers': return []
+    if op['name'] == 'split':
+        if 'colnames' in op:
+            cand = [n for n in op['colnames'] if n in g.column]
+            return [cand[op.get('pick', 0) % len(cand)]] if cand else []
+        cl = g.columnlist
+        i = op['column'] % len(cl) if op.get('wrap') else op['column']
+        return [cl[i].name] if i < len(cl) else []
+    return _sel(g, op)
+
+
+def resolve_target(g, op, prev):
+    """later steps of a sequence name their columns relative to the step before:
+    'same' = the columns the previous step was aimed at that still exist (split_column's shrunk
+    column), 'created' = the columns it created, 'touched' = both, 'neighbours' = the columns next
+    to those, 'all'.  `take` = positions (mod length) to keep of that list."""
+    t = op.get('target')
+    if t is None or prev is None: return op
+    touched = prev['same'] + [n for n in prev['created'] if n not in prev['same']]
+    if t == 'same': names = list(prev['same'])
+    elif t == 'created': names = list(prev['created'])
+    elif t == 'touched': names = touched
+    elif t == 'neighbours':
+        ts = set(touched); names = []
+        for n in touched:
+            if n in g.column:
+                for nb in sorted(x.name for x in g.column[n].neighbour):
+                    if nb not in ts and nb not in names: names.append(nb)
+    elif t == 'all': names = [c.name for c in g.columnlist]
+    else: raise ValueError('unknown target %r' % t)
+    names = [n for n in names if n in g.column]
+    if op.get('nodes_in'): names = [n for n in names if g.column[n].num_nodes in op['nodes_in']]
+    if op.get('take') is not None and names:
+        names = [names[k % len(names)] for k in op['take']]
+        names = [n for i, n in enumerate(names) if n not in names[:i]]
+    op = dict(op); op['colnames'] = names
+    return op
+
+
+def check_steps(case):
+    """a sequence of operations (earlier refinements as inputs): every clause of the property is
+    evaluated after EACH step against the geometry before that step"""
+    import random
+    rng = random.Random(case.get('seed', 0))
+    res = {'failures': [], 'status': 'ok', 'stats': {}}
+    steps = case['steps']
+    try:
+        g = build(case['mesh'])
+        set_surfaces(g, case.get('surfaces'))
+        with _quiet():
+            if g.missing_connections or g.extra_connections:
+                res['status'] = 'input-not-conforming'; return res
+    except Exception as e:
+        res['status'] = 'setup-failed: %r' % (e,)
+        res['trace'] = traceback.format_exc()[-1500:]
+        return res
+    prev = None; statuses = []; stats = {}
+    for k, op0 in enumerate(steps):
+        opname = OPNAMES[op0['name']]
+        where = 'step %d (%s) of the sequence %s' % (k + 1, opname, ' -> '.join(OPNAMES[o['name']] for o in steps))
+        try:
+            op = resolve_target(g, op0, prev)
+            before = snapshot(g)
+            targets = op_targets(g, op)
+        except Exception as e:
+            res['failures'].append({'key': '%s:exception' % opname, 'observed': '%s: preparing it raised %r\n%s' % (where, e, traceback.format_exc()[-800:]),
+                                    'required': 'area and volume are defined after the earlier steps'})
+            break
+        try:
+            r = apply_op(g, op)
+        except Exception as e:
+            tb = traceback.format_exc()
+            if opname == 'refine' and isinstance(e, TypeError) and 'NoneType' in str(e) and op.get('edge') and op.get('bisect'):
+                statuses.append('edge-column-without-refined-side'); break
+            if type(e).__name__ == 'NamingConventionError':
+                statuses.append('naming-capacity-exceeded'); break
+            res['failures'].append({'key': '%s:exception' % opname, 'observed': '%s: raised %r\n%s' % (where, e, tb[-800:]), 'required': 'the operation completes'})
+            break
+        statuses.append(r)
+        F, st = compare(before, g, opname, rng, npts=case.get('npts', 6), lattice=case.get('lattice', 0))
+        for kk, v in st.items(): stats[kk] = stats.get(kk, 0) + v
+        if F:
+            for f in F: f['observed'] = '%s, columns %s: %s' % (where, targets[:6], f['observed'])
+            res['failures'] = F
+            break
+        if op['name'] != 'refine_layers':       # layers do not change which columns the next step means
+            prev = {'same': [n for n in targets if n in g.column],
+                    'created': [c.name for c in g.columnlist if c.name not in before.cols]}
+    res['stats'] = stats
+    bad = [x for x in statuses if x != 'ok']
+    res['status'] = 'ok' if (statuses and not bad and len(statuses) == len(steps)) else ('incomplete' if not bad else bad[0])
+    res['steps_done'] = statuses
+    return res
+
+
 def check_case(case):
     """run one case; returns {'failures': [...], 'status': str, 'stats': {...}}"""
     import random
+    if 'steps' in case: return check_steps(case)
     rng = random.Random(case.get('seed', 0))
     res = {'failures': [], 'status': 'ok', 'stats': {}}
     op = case['op']
